@@ -112,8 +112,9 @@ def first_lines(rng, tier):
         for (d, t) in (SEPARATORS[:2] if quick else SEPARATORS[:4]):
             pre = sep_ops(d, t) + [{"op": "set_num_cfg", "d": n, "rm": rm, "round": rnd},
                                    {"op": "set_pct_cfg", "d": n, "rm": rm, "round": rnd}]
-            vals = ["1234.5", "1/3", "0.1 + 0.2", "1234567.891", "-2/3", "5", "0.000001", "123456.789 * 1000"]
-            for v in (vals if not quick else rng.sample(vals, 3)):
+            vals = ["1234.5", "1/3", "0.1 + 0.2", "1234567.891", "-2/3", "5", "0.000001", "123456.789 * 1000",
+                    "999.999", "999.9996", "-999.997", "999999.9999", "99.9999", "9.99999"]
+            for v in (vals if not quick else rng.sample(vals, 3) + ["999.999"]):
                 cs.append(mk(pre, lit(v, d), rng.choice(["en", "tr"]), "number", dsep=d, tsep=t, v=v, cfg=[n, rm, rnd]))
             for v in (["12.345%", "-0.5%", "1234.5678%"] if not quick else ["12.345%"]):
                 cs.append(mk(pre, lit(v, d), rng.choice(["en", "tr"]), "percent", dsep=d, tsep=t, v=v, cfg=[n, rm, rnd]))
